@@ -38,6 +38,9 @@
 #endif
 #endif
 #define KEYS 32
+#ifndef BULKN
+#define BULKN (LEAF + 2)   // bulk_load range length 0..BULKN (one full leaf plus a partial one)
+#endif
 enum { MULTI = (CONT == 1 || CONT == 3), ISMAP = (CONT >= 2) };
 
 #ifdef VERIFY
@@ -196,6 +199,11 @@ static void prefix(Tree& t, Model& m)
 #elif PRE == 6      // duplicate run spanning at least two leaves (multi containers); unique containers get distinct keys
     for (unsigned i = 0; i < LEAF + 3; ++i) p_ins(t, m, (uint8_t)(MULTI ? 10 : 10 + i), (uint8_t)i);
     p_ins(t, m, 4, 100); p_ins(t, m, 20, 101);
+#elif PRE == 8      // a single entry: the root is a leaf that the next erase empties
+    p_ins(t, m, 12, 7);
+#elif PRE == 7      // short duplicate run (three equivalent keys) that crosses a leaf boundary
+    { static const uint8_t ks[7] = {9, 10, 10, 12, 10, 11, 4};   // multiset: leaves [4 9 10 10][10 11 12]
+      for (unsigned i = 0; i < 7; ++i) p_ins(t, m, ks[i], (uint8_t)i); }
 #endif
 }
 
@@ -242,8 +250,8 @@ HARNESS(h_btree)
         case 1: { Tree* c = new Tree(); c->insert(MKVAL(key, val)); *c = *tp; CHECK(*c == *tp, "assignment makes the trees equal"); compare_all(*c, m, key); delete c; } break;
         case 2: { Tree* c = new Tree(); c->insert(MKVAL(key, val)); c->swap(*tp); CHECK(tp->size() == 1 && c->size() == m.n, "swap exchanges the contents"); tp->swap(*c); delete c; } break;
         case 3: tp->clear(); m.n = 0; break;
-        case 4: { tp->clear(); m.n = 0; unsigned cnt = nondet_below(2 * LEAF + 2); Tree::value_type a[2 * LEAF + 2]; uint8_t last = 0;
-                  for (unsigned i = 0; i < 2 * LEAF + 1; ++i) if (i < cnt) { uint8_t d = (uint8_t)nondet_below(3); if (!MULTI && i > 0) d = (uint8_t)(d + 1);
+        case 4: { tp->clear(); m.n = 0; unsigned cnt = nondet_below(BULKN + 1); Tree::value_type a[BULKN + 1]; uint8_t last = 0;
+                  for (unsigned i = 0; i < BULKN; ++i) if (i < cnt) { uint8_t d = (uint8_t)nondet_below(3); if (!MULTI && i > 0) d = (uint8_t)(d + 1);
 #ifdef CMP_GREATER
                       uint8_t kk = (uint8_t)(i == 0 ? 200 - d : last - d);
 #else
